@@ -13,6 +13,8 @@ import CBV.Lemmas.C18Sides
 import CBV.Lemmas.C18Disk
 import CBV.Lemmas.C18Reject
 import CBV.Lemmas.C18Stable
+import CBV.Lemmas.C18Gap
+import Mathlib.Analysis.Real.Sqrt
 import CBV.Gen.TC18
 import CBV.Gen.TC19
 
@@ -784,6 +786,75 @@ example : clearSearch (swapLR cubePts) (cubeHull.reverse.map (fun s => (perm [1,
     perm [1, 0, 3, 2, 5, 4, 7, 6] s.2.1, perm [1, 0, 3, 2, 5, 4, 7, 6] s.2.2))) ⟨1 / 2, -10, 1 / 2⟩ ⟨1 / 2, 1 / 2, 10⟩
     = some cubePts := by decide +kernel
 
+
+/-! ### round 6f: the gap hypothesis discharged for the fan disk classes -/
+
+section gap
+open CBV.C11 (P3 DiskCls)
+open CBV.C19 (rimStart nPositions)
+
+/-- **Rim / non-rim separation.**  OneCoreDisk / QuarterDisk / HalfDisk / FourCoreDisk in any placement, `R` the radius,
+    `ρ ≤ 1` an upper bound of the class's ratios (diagonal ratio, and core ratio where the class has one): every non-rim
+    position is within `ρ·R` of the centre (`nonrim_radial`), every rim position on the circle of radius `R`, so they are
+    at least `(1 − ρ)·R` apart; if `TOL + 2δ ≤ (1 − ρ)·R` no non-rim position is within `TOL + 2δ` of a rim position and
+    vice versa — the "clearly away" alternative of the gap hypothesis of `T_C18_finder_stable_pv` for the shell finder
+    on vertices at non-rim positions and for the core finder on vertices at rim positions. -/
+theorem T_C18_disk_gap {K : Type} [Field K] [LinearOrder K] [IsStrictOrderedRing K]
+    (cl : DiskCls) (c rp u : P3 K) (h k dg ρ R t δ : K) (hok : CBV.C11.DiskOK cl h k dg)
+    (hh : h * h + h * h = 1) (hu : P3.nsq u = 1) (hp : P3.dot u (P3.sub rp c) = 0) (hR : 0 < R)
+    (hRR : P3.nsq (P3.sub rp c) = R * R) (hdρ : dg ≤ ρ) (hkρ : cl ≠ .oneCore → k ≤ ρ) (hρ1 : ρ ≤ 1)
+    (htδ : 0 ≤ t + 2 * δ) (hgap : t + 2 * δ ≤ (1 - ρ) * R)
+    (i j : Nat) (hi : i < rimStart cl) (hj : rimStart cl ≤ j) (hjn : j < nPositions cl) :
+    ¬ nearK (t + 2 * δ) ((CBV.C11.diskPts cl c rp u h k dg).getD i c) ((CBV.C11.diskPts cl c rp u h k dg).getD j c) ∧
+    ¬ nearK (t + 2 * δ) ((CBV.C11.diskPts cl c rp u h k dg).getD j c) ((CBV.C11.diskPts cl c rp u h k dg).getD i c) :=
+  disk_gap cl c rp u h k dg ρ R t δ hok hh hu hp hR hRR hdρ hkρ hρ1 htδ hgap i j hi hj hjn
+
+/-- non-vacuity over ℝ: h = √2/2, OneCoreDisk with diagonal ratio 9/10 about (1,2,3), radius 2, TOL + 2δ = 1/100 ≤ 0.1·2 -/
+example : ∃ h : ℝ, h * h + h * h = 1 ∧ CBV.C11.DiskOK DiskCls.oneCore h (4 / 5) (9 / 10) ∧
+    P3.nsq (⟨0, 0, 1⟩ : P3 ℝ) = 1 ∧ P3.dot (⟨0, 0, 1⟩ : P3 ℝ) (P3.sub ⟨1, 4, 3⟩ ⟨1, 2, 3⟩) = 0 ∧
+    P3.nsq (P3.sub (⟨1, 4, 3⟩ : P3 ℝ) ⟨1, 2, 3⟩) = 2 * 2 ∧ ((1 : ℝ) / 100 ≤ (1 - 9 / 10) * 2) := by
+  have hs : Real.sqrt 2 * Real.sqrt 2 = 2 := Real.mul_self_sqrt (by norm_num)
+  refine ⟨Real.sqrt 2 / 2, by nlinarith [hs], ?_, ?_, ?_, ?_, by norm_num⟩
+  · constructor <;> norm_num
+  · simp only [P3.nsq, P3.dot]; norm_num
+  · simp only [P3.dot, P3.sub]; norm_num
+  · simp only [P3.nsq, P3.dot, P3.sub]; norm_num
+
+/-- **Stability with the gap asked per vertex.**  As `T_C18_finder_stable`, but every exact vertex only has to be clearly
+    within (`TOL − 2δ`) of SOME exact position or clearly away (`TOL + 2δ`) from ALL of them: a vertex sitting on a rim
+    position is found through that position whatever its distance to the neighbouring rim positions; for vertices at
+    non-rim positions `T_C18_disk_gap` gives the second alternative. -/
+theorem T_C18_finder_stable_pv {K : Type} [Field K] [LinearOrder K] [IsStrictOrderedRing K]
+    (δ : K) (hδ : 0 ≤ δ) (ht : 2 * δ < ((tol : Rat) : K)) (vs ps : List (P3 K)) (vs' ps' : List V3)
+    (hlv : vs'.length = vs.length) (hlp : ps'.length = ps.length)
+    (hv : ∀ i, i < vs.length →
+      P3.nsq (P3.sub (castP (vs'.getD i V3.zero)) (vs.getD i (castP V3.zero))) ≤ δ * δ)
+    (hp : ∀ k, k < ps.length →
+      P3.nsq (P3.sub (castP (ps'.getD k V3.zero)) (ps.getD k (castP V3.zero))) ≤ δ * δ)
+    (gap : ∀ i, i < vs.length →
+      (∃ k, k < ps.length ∧ nearK (((tol : Rat) : K) - 2 * δ) (vs.getD i (castP V3.zero)) (ps.getD k (castP V3.zero))) ∨
+      (∀ k, k < ps.length → ¬ nearK (((tol : Rat) : K) + 2 * δ) (vs.getD i (castP V3.zero)) (ps.getD k (castP V3.zero)))) :
+    findFromPoints vs' ps' = findK ((tol : Rat) : K) (castP V3.zero) vs ps := by
+  rw [findFromPoints_cast (K := K)]
+  exact findK_stable_pv ((tol : Rat) : K) δ hδ ht (castP V3.zero) vs (vs'.map castP) ps (ps'.map castP)
+    (by simpa using hlv) (by simpa using hlp)
+    (fun i hi => by rw [getD_map_castP]; exact hv i hi)
+    (fun k hk => by rw [getD_map_castP]; exact hp k hk) gap
+
+/-- non-vacuity (K = ℚ, δ = 1e-9): two sketch positions 1/2 apart (inside each other's neighbourhood for no tolerance),
+    a vertex on the first (float image 1e-9 off) and a vertex far from both -/
+example : findFromPoints [⟨1 / 1000000000, 0, 0⟩, ⟨5, 0, 0⟩] [⟨0, 0, 0⟩, ⟨1 / 2, 0, 0⟩]
+    = findK ((tol : Rat) : Rat) (castP V3.zero) [⟨0, 0, 0⟩, ⟨5, 0, 0⟩] [⟨0, 0, 0⟩, ⟨1 / 2, 0, 0⟩] :=
+  T_C18_finder_stable_pv (K := Rat) (1 / 1000000000) (by decide +kernel) (by decide +kernel)
+    [⟨0, 0, 0⟩, ⟨5, 0, 0⟩] [⟨0, 0, 0⟩, ⟨1 / 2, 0, 0⟩] [⟨1 / 1000000000, 0, 0⟩, ⟨5, 0, 0⟩] [⟨0, 0, 0⟩, ⟨1 / 2, 0, 0⟩]
+    rfl rfl (by decide +kernel) (by decide +kernel)
+    (fun i hi => by
+      have : i = 0 ∨ i = 1 := by simp only [List.length_cons, List.length_nil] at hi; omega
+      rcases this with rfl | rfl
+      · exact Or.inl ⟨0, by decide, by decide +kernel⟩
+      · exact Or.inr (by decide +kernel))
+
+end gap
 
 /-! ### round 6e: the float-to-exact link of the finder theorems -/
 
